@@ -16,6 +16,9 @@ import EaselModel.Sqio.RoundTrip
 import EaselModel.Sqio.LineSpec
 import EaselModel.Sqio.RevWindowSpec
 import EaselModel.Sqio.EmblSpec
+import EaselModel.Sqio.EmblAll
+import EaselModel.Sqio.FileWindows
+import EaselModel.Sqio.EmblWin
 /-! # C04 — all ways of reading a sequence file agree with each other and with the file
 
 Property theorems only (proofs are glue on `Sqio/Windows.lean`, `Sqio/Refine.lean`, `Sqio/Spec.lean`).
@@ -364,34 +367,36 @@ open EaselModel.Sqio.Cursor EaselModel.Sqio.ReadSpec EaselModel.Sqio.WindowSerie
     digital mode and every request stream `(C_k ≥ 0, W_k ≥ 1)` (context and width may change from call to call): if the whole-record read
     succeeds with residues `R`, the loop `while (esl_sqio_ReadWindow(sqfp, C_k, W_k, sq) == eslOK)` on the same handle returns exactly
     the declarative windows of `R` (`Sqio/WinSpecPure.lean`: context = the `min C_k (previous window size)` preceding residues, `min W_k
-    (residues left)` new ones, `start = d − c + 1`, `end = d + w`, residues `R[start..end]`), then `eslEOD` with `L = |R|` and an empty
+    (residues left)` new ones, `start = d − c + 1`, `end = d + w`, residues `R[start..end]`; `F` = any loop bound ≥ `|R| + 2`), then `eslEOD` with `L = |R|` and an empty
     window, reports the same name / accession / description / `roff` / `hoff` / `doff` (`hdrOf`: also mode and string allocations), and
     leaves the cursor on the byte where `Read` leaves it (so the next record starts identically for both: `windows_then_ready`). -/
 theorem windows_eq_read (a : Ascii) (sq : Sq) (R : Ready a sq) (hs : sq.seq = #[]) (hst : sq.start = 0)
-    (hok : (read a sq).2.2 = .ok) (req : Nat → Int × Int) (hreq : ∀ k, 0 ≤ (req k).1 ∧ 1 ≤ (req k).2) :
-    (readWindowsM req ((read a sq).2.1.seq.size + 2) 0 a sq).1.map toWin =
-      specWindows (read a sq).2.1.seq req ((read a sq).2.1.seq.size + 2) 0 0 0 ∧
-    (readWindowsM req ((read a sq).2.1.seq.size + 2) 0 a sq).2.2.2 = .eod ∧
-    (readWindowsM req ((read a sq).2.1.seq.size + 2) 0 a sq).2.2.1.seq = #[] ∧
-    (readWindowsM req ((read a sq).2.1.seq.size + 2) 0 a sq).2.2.1.L = (read a sq).2.1.L ∧
-    (readWindowsM req ((read a sq).2.1.seq.size + 2) 0 a sq).2.2.1.start = 0 ∧
-    hdrOf (readWindowsM req ((read a sq).2.1.seq.size + 2) 0 a sq).2.2.1 = hdrOf (read a sq).2.1 ∧
-    Cur (readWindowsM req ((read a sq).2.1.seq.size + 2) 0 a sq).2.1 ∧
-    DataScan.fileFrom (readWindowsM req ((read a sq).2.1.seq.size + 2) 0 a sq).2.1 = DataScan.fileFrom (read a sq).1 ∧
-    stat (readWindowsM req ((read a sq).2.1.seq.size + 2) 0 a sq).2.1 = stat a :=
-  WindowSeries.windows_eq_read a sq R hs hst hok req hreq
+    (hok : (read a sq).2.2 = .ok) (req : Nat → Int × Int) (hreq : ∀ k, 0 ≤ (req k).1 ∧ 1 ≤ (req k).2)
+    (F : Nat) (hF : (read a sq).2.1.seq.size + 2 ≤ F) :
+    (readWindowsM req F 0 a sq).1.map toWin =
+      specWindows (read a sq).2.1.seq req F 0 0 0 ∧
+    (readWindowsM req F 0 a sq).2.2.2 = .eod ∧
+    (readWindowsM req F 0 a sq).2.2.1.seq = #[] ∧
+    (readWindowsM req F 0 a sq).2.2.1.L = (read a sq).2.1.L ∧
+    (readWindowsM req F 0 a sq).2.2.1.start = 0 ∧
+    hdrOf (readWindowsM req F 0 a sq).2.2.1 = hdrOf (read a sq).2.1 ∧
+    Cur (readWindowsM req F 0 a sq).2.1 ∧
+    DataScan.fileFrom (readWindowsM req F 0 a sq).2.1 = DataScan.fileFrom (read a sq).1 ∧
+    stat (readWindowsM req F 0 a sq).2.1 = stat a :=
+  WindowSeries.windows_eq_read a sq R hs hst hok req hreq F hF
 
 open EaselModel.Sqio.ReadSpec EaselModel.Sqio.WindowSeries in
 /-- **the window loop composes over the records of a file**: after the `eslEOD` that ends a record's window series, the handle and the
     `ESL_SQ` are ready for the next record exactly as after `sqascii_Read` + `esl_sq_Reuse` — `Ready` again, cursor on the same byte,
     `start = 0`, no residues — so `windows_eq_read` applies to the next record, and so on through the file -/
 theorem windows_then_ready (a : Ascii) (sq : Sq) (R : Ready a sq) (hs : sq.seq = #[]) (hst : sq.start = 0)
-    (hok : (read a sq).2.2 = .ok) (req : Nat → Int × Int) (hreq : ∀ k, 0 ≤ (req k).1 ∧ 1 ≤ (req k).2) :
-    Ready (readWindowsM req ((read a sq).2.1.seq.size + 2) 0 a sq).2.1 (readWindowsM req ((read a sq).2.1.seq.size + 2) 0 a sq).2.2.1 ∧
-    (readWindowsM req ((read a sq).2.1.seq.size + 2) 0 a sq).2.2.1.seq = #[] ∧
-    (readWindowsM req ((read a sq).2.1.seq.size + 2) 0 a sq).2.2.1.start = 0 ∧
-    DataScan.fileFrom (readWindowsM req ((read a sq).2.1.seq.size + 2) 0 a sq).2.1 = DataScan.fileFrom (read a sq).1 :=
-  WindowSeries.windows_then_ready a sq R hs hst hok req hreq
+    (hok : (read a sq).2.2 = .ok) (req : Nat → Int × Int) (hreq : ∀ k, 0 ≤ (req k).1 ∧ 1 ≤ (req k).2)
+    (F : Nat) (hF : (read a sq).2.1.seq.size + 2 ≤ F) :
+    Ready (readWindowsM req F 0 a sq).2.1 (readWindowsM req F 0 a sq).2.2.1 ∧
+    (readWindowsM req F 0 a sq).2.2.1.seq = #[] ∧
+    (readWindowsM req F 0 a sq).2.2.1.start = 0 ∧
+    DataScan.fileFrom (readWindowsM req F 0 a sq).2.1 = DataScan.fileFrom (read a sq).1 :=
+  WindowSeries.windows_then_ready a sq R hs hst hok req hreq F hF
 
 open EaselModel.Sqio.ReadSpec EaselModel.Sqio.WindowSeries EaselModel.Sqio.WinSpecPure in
 /-- **`windows_concat_eq_read`**: the new (non-context) parts of the windows, concatenated in call order, are exactly the residue array
@@ -438,6 +443,19 @@ example :
     (read a (freshSq 0).reuse).2.1.seq = #[65, 67, 71, 84] ∧ (read a (freshSq 0).reuse).2.2 = Status.ok := by
   decide +kernel
 
+
+open EaselModel.Sqio.ParseFasta EaselModel.Sqio.SpecFasta EaselModel.Sqio.FileWindows EaselModel.Sqio.WinSpecPure in
+/-- **Windows over a whole file = the declarative windows of the declarative records, from `esl_sqfile_Open` on.** For every byte string
+    whose records all parse (`specFasta` ends with `eslEOF`), every mode, every read-block size `B ≥ 1` and every request stream
+    `(C_k ≥ 0, W_k ≥ 1)` (restarted at every record): the client loop "for each record: `while (esl_sqio_ReadWindow(...) == eslOK)`, until
+    `eslEOF`" (`readFileWindowsM`) returns, record by record, exactly `specWindows` of the residues of the records of `specFasta` — the
+    same residues, tiling, context and coordinates that `Read` + slicing would give — and ends with `eslEOF`. -/
+theorem file_windows_eq_specFasta (bytes : Bytes) (B abc : Nat) (hB : 1 ≤ B) (habc : abc ∈ [0, 1, 2, 3])
+    (req : Nat → Int × Int) (hreq : ∀ k, 0 ≤ (req k).1 ∧ 1 ≤ (req k).2) (hclean : (specFasta abc bytes.toList).2 = .eof) :
+    (readFileWindowsM req (bytes.size + 2) (openFasta bytes B abc) (freshSq abc).reuse).1.map (fun ws => ws.map toWin) =
+      (specFasta abc bytes.toList).1.map (fun r => specWindows r.seq.toArray req (bytes.size + 2) 0 0 0) ∧
+    (readFileWindowsM req (bytes.size + 2) (openFasta bytes B abc) (freshSq abc).reuse).2 = .eof :=
+  FileWindows.file_windows_from_open bytes B abc hB habc req hreq hclean
 
 /-! ## `sqascii_ReadBlock`, whole-sequence mode (round 4) -/
 
@@ -657,5 +675,41 @@ theorem open_line_based_sim (file : Bytes) (B1 B2 abc fmt : Nat) (eofOk : Bool) 
     (loadbuf { file := file, B := B1, abc := abc, fmt := fmt, eofIsOk := eofOk, linebased := true, inmap := inmap }).2 =
       (loadbuf { file := file, B := B2, abc := abc, fmt := fmt, eofIsOk := eofOk, linebased := true, inmap := inmap }).2 :=
   EmblSpec.open_lsim file B1 B2 abc fmt eofOk inmap h1 h2
+
+
+open EaselModel.Sqio.EmblAll in
+/-- **The whole reader of the line-based formats is block-size independent, from `esl_sqfile_Open` on**: for any two block sizes
+    `B₁, B₂ ≥ 1`, reading every record of an EMBL / UniProt / GenBank / DDBJ file with `sqascii_Read` (`openLine` = the handle
+    `esl_sqfile_Open` / `OpenDigital` yields for a line format) gives the same records — every `ESL_SQ` field — and the same final status. -/
+theorem read_all_linebased_block_size_independent (file : Bytes) (B1 B2 abc fmt : Nat) (eofOk : Bool) (inmap0 inmap1 : Bytes)
+    (h1 : 1 ≤ B1) (h2 : 1 ≤ B2) (hf : fmt = 2 ∨ fmt = 3 ∨ fmt = 4 ∨ fmt = 5) (fuel : Nat) (sq : Sq) :
+    ParseFasta.readAllM fuel (openLine file B1 abc fmt eofOk inmap0 inmap1) sq =
+      ParseFasta.readAllM fuel (openLine file B2 abc fmt eofOk inmap0 inmap1) sq :=
+  EmblAll.read_all_linebased_open file B1 B2 abc fmt eofOk inmap0 inmap1 h1 h2 hf fuel sq
+
+open EaselModel.Sqio.LineSpec EaselModel.Sqio.EmblAll in
+/-- `sqascii_ReadInfo` and `sqascii_ReadSequence` on the line-based formats: same status, same `ESL_SQ`, same line afterwards, for any two
+    block sizes -/
+theorem readInfo_readSequence_linebased_block_size_independent (a1 a2 : Ascii) (sq : Sq) (h : LSim a1 a2) (hf : LineFmt a1) :
+    ((readInfo a1 sq).2.2 = (readInfo a2 sq).2.2 ∧ (readInfo a1 sq).2.1 = (readInfo a2 sq).2.1 ∧ LSim (readInfo a1 sq).1 (readInfo a2 sq).1) ∧
+    ((readSequence a1 sq).2.2 = (readSequence a2 sq).2.2 ∧ (readSequence a1 sq).2.1 = (readSequence a2 sq).2.1 ∧
+      LSim (readSequence a1 sq).1 (readSequence a2 sq).1) :=
+  ⟨EmblAll.readInfo_block_size_independent a1 a2 sq h hf, EmblAll.readSequence_block_size_independent a1 a2 sq h hf⟩
+
+
+open EaselModel.Sqio.LineSpec EaselModel.Sqio.EmblAll in
+/-- **forward `ReadWindow` and whole-sequence `ReadBlock` on the line-based formats are block-size independent** (first and later window
+    calls, any `C`, `W ≥ 0`; `read_nres` with any `nskip`): same status, same `ESL_SQ` / block, same line afterwards, for any two block sizes —
+    with `read_linebased_block_size_independent` and `readInfo_readSequence_linebased_block_size_independent` this covers the five read
+    calls of the property for EMBL / UniProt / GenBank / DDBJ (reverse-strand windows and long-target blocks excepted) -/
+theorem readWindow_readBlock_linebased_block_size_independent (a1 a2 : Ascii) (h : LSim a1 a2) (hf : LineFmt a1) :
+    (∀ (sq : Sq) (C W : Int), 0 ≤ W →
+      (readWindow a1 sq C W).2.2 = (readWindow a2 sq C W).2.2 ∧ (readWindow a1 sq C W).2.1 = (readWindow a2 sq C W).2.1 ∧
+      LSim (readWindow a1 sq C W).1 (readWindow a2 sq C W).1) ∧
+    (∀ (b : Block) (maxRes maxSeq : Int) (maxInit : Bool),
+      (readBlock a1 b maxRes maxSeq maxInit false).2 = (readBlock a2 b maxRes maxSeq maxInit false).2 ∧
+      LSim (readBlock a1 b maxRes maxSeq maxInit false).1 (readBlock a2 b maxRes maxSeq maxInit false).1) :=
+  ⟨fun sq C W hW => EmblWin.readWindow_fwd_linebased_block_size_independent a1 a2 sq C W h hf hW,
+   fun b maxRes maxSeq maxInit => EmblWin.readBlock_short_linebased_block_size_independent a1 a2 b maxRes maxSeq maxInit h hf⟩
 
 end EaselModel.Props.C04
